@@ -20,7 +20,8 @@ EXPLANATION = (
     "re-appends the forward edge, is a top-level statement and precedes every return, with no raise/return between the edits and it; (R2) "
     "every access to a per-worker adjacency pool in safe_sequences happens inside `with worker_locks[w]` with the same index; (R3) a "
     "non-SCC edge is fixed to 1 only after the `m != 1 -> ValueError` test on every path, SCC edges get >= m with m the Counter value, "
-    "and the protection set of the zero-fixing (including the gap rule) conforms to the frozen builder description.  NOT decided - and "
+    "and the protection set of the zero-fixing (including the gap rule) conforms to the frozen builder description; (R4) the flow-safe path scan extends a path only while its excess flow stays "
+    "strictly positive (the published characterisation of flow-decomposition safety), decided on the polynomial normal form of the stop test.  NOT decided - and "
     "not decidable here: safety of the sequences in every cover, incompatibility of the chosen sequences, soundness of the pruning."
 )
 DECIDED = ["mutate/restore pairing of the shared adjacency structure", "lock discipline of the per-worker pools",
@@ -151,6 +152,49 @@ def multiplicity_guard(prog: Program, rep, RID: str):
         rep.violation(RID, key, f"multiplicity guard broken (non-SCC context: {ok_ctx}; dominates the fix: {ok} {why})", f.loc(s["_node"]))
 
 
+def flow_safety_threshold(prog: Program, rep, RID: str):
+    """A path is safe for flow decomposition iff its excess flow is *strictly* positive (Khan et al., RECOMB 2022; the
+    references the function cites): the right extension must stop as soon as the excess after the extension is <= 0."""
+    from sa.poly import to_poly
+    from rules.common import local_single_defs, substitute_locals
+    f = prog.function("flowpaths.utils.safetyflowdecomp", "compute_inexact_flow_decomp_safe_paths")
+    defs = local_single_defs(f.node)
+    # locals defined inside the loops are re-assigned per iteration but syntactically once: collect them too
+    for n in ast.walk(f.node):
+        if isinstance(n, ast.Assign) and len(n.targets) == 1 and isinstance(n.targets[0], ast.Name):
+            cnt = sum(1 for m in ast.walk(f.node) if isinstance(m, ast.Assign) and len(m.targets) == 1 and isinstance(m.targets[0], ast.Name) and m.targets[0].id == n.targets[0].id)
+            if cnt == 1 and n.targets[0].id != "inexact_excess":
+                defs.setdefault(n.targets[0].id, n.value)
+    hits = []
+    for w in [n for n in ast.walk(f.node) if isinstance(n, ast.While)]:
+        for st in w.body:
+            if isinstance(st, ast.If) and any(isinstance(b, ast.Break) for b in st.body) and "inexact_excess" in norm(st.test):
+                hits.append(st)
+    key = "compute_inexact_flow_decomp_safe_paths:excess-threshold"
+    if len(hits) != 1:
+        raise AnalysisError(f"flow-safe paths: expected one `if <excess test>: break` in the extension loop, found {len(hits)}")
+    t = hits[0].test
+    if not (isinstance(t, ast.Compare) and len(t.ops) == 1):
+        raise AnalysisError(f"flow-safe paths: cannot interpret the stop test `{norm(t)}`")
+    P = to_poly(substitute_locals(t.left, defs)) - to_poly(substitute_locals(t.comparators[0], defs))
+    c = P.coeff(("inexact_excess",))
+    op = t.ops[0]
+    # expected: excess + U(next) - sum of U over the out-edges of the current node
+    atoms = sorted(a for a in P.atoms() if a != "inexact_excess")
+    shape = c != 0 and len(atoms) == 2 and any(a.startswith("sum(") and "out_edges(path[R])" in a for a in atoms) and \
+        any("path[R], path[R + 1]" in a and "upperbound_attr" in a for a in atoms)
+    nonstrict = (c > 0 and isinstance(op, ast.LtE)) or (c < 0 and isinstance(op, ast.GtE))
+    strict = (c > 0 and isinstance(op, ast.Lt)) or (c < 0 and isinstance(op, ast.Gt))
+    if shape and nonstrict:
+        rep.ok(RID, key, "the extension stops when excess + f(next) - sum f(out-edges) <= 0: only strictly positive excess is reported safe", f.loc(hits[0]),
+               sample={"stop_test": norm(t), "normal_form": repr(P) + (" <= 0" if c > 0 else " >= 0")})
+    elif shape and strict:
+        rep.violation(RID, key, f"the extension stops only when the excess becomes negative (`{norm(t)}`): a path whose excess flow is exactly 0 is reported as safe although a "
+                      "flow decomposition avoiding it exists", f.loc(hits[0]))
+    else:
+        raise AnalysisError(f"flow-safe paths: stop test `{norm(t)}` has normal form `{P!r}` - not the excess-flow expression")
+
+
 def check(prog: Program, rep):
     rep.rule("C06.R1", "mutate/restore pairing on the shared adjacency dict", floor=2)
     restore_rule(prog, rep, "C06.R1", "flowpaths.utils.safetypathcovers", "find_all_bridges")
@@ -160,3 +204,5 @@ def check(prog: Program, rep):
     rep.rule("C06.R3", "multiplicity guard; safety rows and protection-set builders conform to the frozen table", floor=6)
     multiplicity_guard(prog, rep, "C06.R3")
     conformance(prog, rep, "C06.R3", "C05")
+    rep.rule("C06.R4", "flow-safe paths: the excess-flow threshold is strict positivity", floor=1)
+    flow_safety_threshold(prog, rep, "C06.R4")
